@@ -20,7 +20,7 @@ VALUES = [0, 1, 2, 5, 0x7F, 0x80, 0xFF, 0x100, 0x7FFF, 0x8000, 0xFFFF, -1, -2, -
 
 class Gen:
     def __init__(self, rng, *, debug_ops=True, wild=False, data=True, calls=True, size=None, pseudo=True,
-                 relative=True, opcode=True, strings_wide=False):
+                 relative=True, opcode=True, strings_wide=False, same_line=False):
         self.rng = rng
         self.debug_ops = debug_ops
         self.wild = wild
@@ -30,6 +30,7 @@ class Gen:
         self.relative = relative
         self.opcode = opcode
         self.strings_wide = strings_wide
+        self.same_line = same_line
         self.size = size if size is not None else rng.choice([3, 6, 10, 16, 25])
         self.nlabel = 0
         self.dlabels = []
@@ -260,7 +261,7 @@ class Gen:
         for line in self.lines:
             if style < 0.15:
                 out.append("  " + line + "  // c")
-            elif 0.15 <= style < 0.4 and out and r.random() < 0.4 and not out[-1].endswith("// c"):
+            elif self.same_line and 0.15 <= style < 0.4 and out and r.random() < 0.4 and not out[-1].endswith("// c"):
                 out[-1] = out[-1] + r.choice([" ", "  ", "\t"]) + line
             else:
                 out.append(line)
